@@ -513,6 +513,12 @@ def _replay_row(w, row, objs, real, jmap, confs, lcm, opts, out):
                 @deco(conf=conf)
                 def f_ret(a) -> hint:
                     return a
+
+                # the same hint at every kind of parameter next to parameters the hint says nothing about: the
+                # subject is passed positionally, variadically, by keyword-only name and as an extra keyword
+                @deco(conf=conf)
+                def f_multi(p0: object, a: hint, *va: hint, k: hint, o: object = None, **kw: hint):
+                    return a
             except Exception as ex:  # noqa
                 _issue(out, "C11", "decor_rejected", row, None, objs,
                        f"@beartype rejects supported hint {hint!r}: {type(ex).__name__}: {str(ex)[:200]}")
@@ -525,8 +531,10 @@ def _replay_row(w, row, objs, real, jmap, confs, lcm, opts, out):
                 for r in draws:
                     want = bool(verd[j] >> r & 1)
                     big = (row["hid"] + j + r) % 3
-                    for name in ("die", "th_is", "th_die", "param", "ret"):
+                    for name in ("die", "th_is", "th_die", "param", "ret", "multi"):
                         if th is None and name in ("th_is", "th_die"):
+                            continue
+                        if name == "multi" and objs[j]["k"] == "iter" and objs[j]["cls"] != "gen":
                             continue
                         set_draw(r, lcm, big)
                         DRAW.calls = 0
@@ -541,6 +549,8 @@ def _replay_row(w, row, objs, real, jmap, confs, lcm, opts, out):
                                 th.die_if_unbearable(x2, conf=conf)
                             elif name == "param":
                                 res = f_param(x2)
+                            elif name == "multi":
+                                res = f_multi(0, x2, x2, k=x2, o=0, z=x2)
                             else:
                                 res = f_ret(x2)
                         except Exception as ex:   # noqa
@@ -548,7 +558,7 @@ def _replay_row(w, row, objs, real, jmap, confs, lcm, opts, out):
                         out["n_calls"] += 1
                         if DRAW.calls > out["draw_calls_max"]:
                             out["draw_calls_max"] = DRAW.calls
-                        if DRAW.calls > 1 and "C02" in props:
+                        if DRAW.calls > 1 and "C02" in props and name != "multi":
                             _issue(out, "C02", "many_draws", row, j, objs, f"{name}: {DRAW.calls} sampler draws in one check")
                         if got != want:
                             if want and (code[jmap[j]] & 1) and "C01" in props:
@@ -564,11 +574,12 @@ def _replay_row(w, row, objs, real, jmap, confs, lcm, opts, out):
                             continue
                         if "C03" not in props:
                             continue
-                        if got and name in ("param", "ret") and res is not x2:
+                        if got and name in ("param", "ret", "multi") and res is not x2:
                             _issue(out, "C03", "value_changed", row, j, objs, f"{name}: returned object is not the argument")
                         if not got and name != "th_is":
                             wantcls = {"die": BeartypeDoorHintViolation, "th_die": BeartypeDoorHintViolation,
                                        "param": BeartypeCallHintParamViolation,
+                                       "multi": BeartypeCallHintParamViolation,
                                        "ret": BeartypeCallHintReturnViolation}[name]
                             if type(exc) is not wantcls:
                                 _issue(out, "C03", "wrong_violation_class", row, j, objs,
@@ -751,6 +762,8 @@ def _viol_confs(w, row, hint, cabs, objs, real, jmap, verd, todo, lcm, props, ou
                                 res = th.die_if_unbearable(x2, conf=conf)
                             elif name == "param":
                                 res = f_param(x2)
+                            elif name == "multi":
+                                res = f_multi(0, x2, x2, k=x2, o=0, z=x2)
                             else:
                                 res = f_ret(x2)
                         except Exception as ex:   # noqa
